@@ -129,7 +129,9 @@ func child(specFile string) {
 	}
 }
 
-var nameAlpha = []string{"A", "B", "PATH", "x", "Z_9", "a.b", "né", "K k", "名", "HOME", "_", "a-b", "Q", "LONGER_NAME_1", "é"}
+var nameAlpha = []string{"A", "B", "PATH", "x", "Z_9", "a.b", "né", "K k", "名", "HOME", "_", "a-b", "Q", "LONGER_NAME_1", "é",
+	// names that mean something to a JavaScript object: the environment is data, whatever the names
+	"__proto__", "constructor", "toString", "hasOwnProperty", "valueOf", "length", "0", "__defineGetter__"}
 var valPieces = []string{"", "=", "==", "a", "b c", " ", "é", "日本", "x=y", "=lead", "trail=", "/usr/bin:/bin", "\t", "\"q\"", "a=b=c", "🙂", "%41", "$HOME"}
 
 func genName(r *lib.Rand, used map[string]bool) string {
